@@ -8,7 +8,7 @@
      c          literal byte c             1000 + c   decimal reference &#c;
      2000 + c   named reference (&lt; &gt; &amp; &apos; &quot;)      3000 + c   hex reference &#xc; *)
 EXTENDS XmlInfoset, TLC, Json
-CONSTANTS MaxLen, Alphabet, Emit
+CONSTANTS MaxLen, Alphabet, Emit, EmitMod
 VARIABLES q, val, phase, oq, oval
 vars == <<q, val, phase, oq, oval>>
 
@@ -84,7 +84,8 @@ RenderItem(x) == IF x < 1000 THEN <<x>>
                  ELSE <<38, 35, 120>> \o Hex(x - 3000) \o <<59>>
 RenderVal(qq, v) == <<qq>> \o FoldLeft(LAMBDA acc, x : acc \o RenderItem(x), <<>>, v) \o <<qq>>
 Doc(qq, v) == <<60, 97, 32, 98, 61>> \o RenderVal(qq, v) \o <<47, 62>>          \* <a b=...  />
-EmitCase == (Emit /\ phase = "done") =>
+\* (EmitMod > 1: of the longest values only a deterministic 1/EmitMod sample is handed out)
+EmitCase == (Emit /\ phase = "done" /\ (Len(val) < MaxLen \/ FoldLeft(LAMBDA a, b : a + b, 0, val) % EmitMod = 0)) =>
               PrintT(ToJson([keep |-> FALSE, in |-> Doc(q, val), out |-> Doc(oq, oval), known |-> Known, holds |-> Holds]))
 
 \*  a blank " ' > tab LF CR | &lt; &amp; &gt; &quot; &apos; | &#60; &#38; &#9; &#10; &#13; &#39; &#34; | &#x41; &#x26;
